@@ -156,7 +156,8 @@ func (eval Evaluator) MultiplyByDiagMatrix(ctIn *rlwe.Ciphertext, matrix LinearT
 	ringQ := ringQP.RingQ
 	ringP := ringQP.RingP
 
-	opOut.Resize(opOut.Degree(), levelQ)
+	// The result has the degree of ctIn: a receiver of larger degree (previous use) must not keep its higher degree terms
+	opOut.Resize(ctIn.Degree(), levelQ)
 
 	QiOverF := params.QiOverflowMargin(levelQ)
 	PiOverF := params.PiOverflowMargin(levelP)
@@ -298,7 +299,8 @@ func (eval Evaluator) MultiplyByDiagMatrixBSGS(ctIn *rlwe.Ciphertext, matrix Lin
 	ringQ := ringQP.RingQ
 	ringP := ringQP.RingP
 
-	opOut.Resize(opOut.Degree(), levelQ)
+	// The result has the degree of ctIn: a receiver of larger degree (previous use) must not keep its higher degree terms
+	opOut.Resize(ctIn.Degree(), levelQ)
 
 	QiOverF := params.QiOverflowMargin(levelQ) >> 1
 	PiOverF := params.PiOverflowMargin(levelP) >> 1
